@@ -32,8 +32,14 @@ import pymbolic.traits as traits
 class Rational(primitives.Expression):
     def __init__(self, numerator, denominator=1):
         d_unit = traits.traits(denominator).get_unit(denominator)
-        numerator /= d_unit
-        denominator /= d_unit
+        if isinstance(d_unit, int):
+            # The unit of an integer is +1 or -1: divide exactly. (True
+            # division would turn both parts into inexact floats.)
+            numerator //= d_unit
+            denominator //= d_unit
+        else:
+            numerator /= d_unit
+            denominator /= d_unit
         self.Numerator = numerator
         self.Denominator = denominator
 
